@@ -319,6 +319,20 @@ def val_compose(ctx: Ctx) -> RuleResult:
     r = RuleResult("VAL-COMPOSE")
     f = ctx.method("BaseDAG", "compose")
     nested = {g.name: g for g in ctx.P.funcs.values() if g.parent is f}
+    # every alias handed to compose designates ONE node: inside compose no alias goes through a resolver that hands back several ids
+    # (a tag carried by two nodes must raise ValueError - it must not become two inputs)
+    n_single = 0
+    for g_ in [f] + list(nested.values()):
+        for c_ in iter_own_nodes(g_.node):
+            if isinstance(c_, ast.Call) and isinstance(c_.func, ast.Attribute) and dotted(c_.func.value) == "self":
+                if c_.func.attr in ("get_multiple_nodes_aliases", "alias_to_ids", "get_nodes_by_tag"):
+                    r.ob(False, {"in": g_.short, "alias resolved by": c_.func.attr})
+                    r.violate(f"{g_.short}: an alias given to compose is resolved by {c_.func.attr} (every node the alias designates)", g_.loc(c_),
+                              "an ambiguous alias (a tag carried by several nodes) given as an input or output of compose must raise ValueError; "
+                              "expanded into several ids it silently becomes several inputs / outputs of the composed DAG", norm_src(c_)[:100])
+                elif c_.func.attr == "_get_single_xn_by_alias":
+                    n_single += 1
+    r.ob(n_single >= 1, {"aliases resolved through the uniqueness check": n_single})
     # the three ValueErrors
     for nm, what in (("_raise_missing_input", "missing input"), ("_raise_input_successor_of_input", "input depends on input")):
         g = nested.get(nm)
